@@ -310,7 +310,7 @@ Definition finish_block (cf : cfg) (s : state) (m : member) (id : nat) (ok : boo
   if negb ok && match c_api cf with ATryFold => true | _ => false end then
     (* `?` leaves the block: the fold state (done sender) is dropped, TryFold breaks with Err, the
        stream is dropped, the scheduler future is complete *)
-    drop_ready_rx (take_s_tx s) <| s_err := Some id |> <| s_fin := true |>
+    drop_ready_rx (take_s_tx s) <| s_err := Some id |> <| s_fin := true |> <| g_finished := g_finished s ++ [id] |>
   else
     let s := if negb ok && match c_api cf with ATryForEach => true | _ => false end then
                let s := if Nat.max 1 (c_n cf) <=? length (errs s) then set_panic PResult s
@@ -443,7 +443,7 @@ Definition settle_fuel (cf : cfg) : nat := 2 * c_n cf + 6.
 
 Fixpoint settle (fuel : nat) (cf : cfg) (s : state) : state :=
   match fuel with
-  | 0 => set_panic POof s
+  | 0 => s
   | S f => if woken s && is_none (result s) && is_none (panic s) then settle f cf (poll cf s) else s
   end.
 
